@@ -104,3 +104,112 @@ Theorem C12_records_bytes : forall (split : str -> list str * bool) (c : cfg) (c
   run_py split c cs pieces = records_of_text split c text.
 Proof. exact py_records_translated. Qed.
 Print Assumptions C12_records_bytes.
+
+(* ------------------------------------------------------------------ the byte-level clause, closed over a model of the text layer *)
+From RBQL Require Import Utf8 TextLayer TextLayer_Proofs.
+
+(* TextLayer.v models what io.TextIOWrapper(stream, encoding=...) is made of: the incremental byte decoder (utf-8 strict = the
+   state machine of Utf8.v; latin-1 = byte values) followed by io.IncrementalNewlineDecoder(translate=True) with its held-back CR
+   (pendingcr), run over the list of raw reads and flushed with decode(b'', final=True).
+
+   The newline layer alone: for EVERY list of text pieces (a CR at the end of a piece, a CR LF pair cut in two, runs of CRs, empty
+   pieces) the outputs concatenate to the translation nl_norm of the whole text - with a separate flush call (nl_stream) or with
+   final=True on the last piece (nl_stream_last) *)
+Theorem C12_newline_layer : forall pieces : list str,
+  concat (nl_stream false pieces) = nl_norm (concat pieces) /\
+  concat (nl_stream_last false pieces) = nl_norm (concat pieces).
+Proof. exact nl_layer_partition_invariant. Qed.
+Print Assumptions C12_newline_layer.
+
+(* byte layer + newline layer, bytes valid in the encoding: every partition into raw reads (cuts inside a multi-byte character or
+   inside a CR LF pair, empty reads) yields one text piece per read plus the flush piece, concatenating to nl_norm (decode b) *)
+Theorem C12_text_layer_valid : forall (e : codec) (b : bytes) (t : str),
+  decode_bytes e b = Some t -> forall raws : list bytes, concat raws = b ->
+  exists tps, text_layer e raws = Some tps /\ concat tps = nl_norm t /\ length tps = S (length raws).
+Proof. exact text_layer_valid. Qed.
+Print Assumptions C12_text_layer_valid.
+
+(* invalid or truncated bytes: every partition ends in the decoding error, never in text *)
+Theorem C12_text_layer_invalid : forall (e : codec) (b : bytes),
+  decode_bytes e b = None -> forall raws : list bytes, concat raws = b -> text_layer e raws = None.
+Proof. exact text_layer_invalid. Qed.
+Print Assumptions C12_text_layer_invalid.
+
+(* latin-1: every byte string decodes, code point = byte value *)
+Theorem C12_latin1_total : forall b : bytes, decode_bytes CLatin1 b = Some b.
+Proof. exact decode_bytes_latin1. Qed.
+Print Assumptions C12_latin1_total.
+
+(* the call-by-call trace that the correspondence run compares with the real decoder objects is the same run *)
+Theorem C12_text_layer_trace : forall (e : codec) (raws : list bytes),
+  text_layer e raws =
+  (let '(l, ok) := text_layer_trace e raws in if ok then Some (map (fun o : obs => fst (fst o)) l) else None).
+Proof. exact text_layer_trace_spec. Qed.
+Print Assumptions C12_text_layer_trace.
+
+(* the byte-level clause: for every byte string b, every partition of b into raw reads, every chunk size of the reader, the reader
+   over the text pieces the text layer produces returns the records (header, warnings, NL, NR, quoted_rfc error) of the decoded
+   text when b is valid in the encoding, and ends in an IO-handling error when it is not.  In rbql-py the codec is the one named
+   by the reader's encoding (codec_of_enc (c_enc c) = Some e); the statement holds for every pairing. *)
+Theorem C12_records_bytes_closed : forall (split : str -> list str * bool) (c : cfg) (cs : nat) (e : codec) (b : bytes) (raws : list bytes),
+  (1 <= cs)%nat -> concat raws = b ->
+  match decode_bytes e b with
+  | Some t => run_py_bytes split c cs e raws = BRes (records_of_text split c t)
+  | None => run_py_bytes split c cs e raws = BIOError
+  end.
+Proof. exact py_bytes_closed_b. Qed.
+Print Assumptions C12_records_bytes_closed.
+
+(* ... and however the text layer's pieces are re-cut before the reader sees them (TextIOWrapper.read(n) gathers decoded pieces in
+   its own buffer and hands out at most n characters) *)
+Theorem C12_records_bytes_rechunked : forall (split : str -> list str * bool) (c : cfg) (cs : nat) (e : codec) (raws : list bytes)
+    (t : str) (tps pieces : list str),
+  (1 <= cs)%nat -> decode_bytes e (concat raws) = Some t -> text_layer e raws = Some tps ->
+  Forall nonempty pieces -> concat pieces = concat tps ->
+  run_py split c cs pieces = records_of_text split c t.
+Proof. exact py_bytes_rechunked. Qed.
+Print Assumptions C12_records_bytes_rechunked.
+
+(* hence one outcome per byte string *)
+Theorem C12_bytes_partition_invariant : forall (split : str -> list str * bool) (c : cfg) (e : codec) (b : bytes)
+    (raws1 raws2 : list bytes) (cs1 cs2 : nat),
+  (1 <= cs1)%nat -> (1 <= cs2)%nat -> concat raws1 = b -> concat raws2 = b ->
+  run_py_bytes split c cs1 e raws1 = run_py_bytes split c cs2 e raws2.
+Proof. exact py_bytes_partition_invariant. Qed.
+Print Assumptions C12_bytes_partition_invariant.
+
+(* non-vacuity: a BOM cut in two, a 2-byte, a 3-byte and a 4-byte character each cut in two (the 4-byte one with an empty read
+   inside), CR CR LF with the cut between the CRs and again inside the CR LF pair, a CR at the end of a read followed by a
+   non-LF; quoted_rfc with a header, chunk size 2.  The text layer's pieces and the reader's outcome are concrete: the record
+   spans three physical lines, the BOM warning is set, NL = 5, NR = 3 *)
+Example C12_nonvacuous_bytes :
+  let c := {| c_rfc := true; c_comment := None; c_header := true; c_enc := EncUtf8; c_modifier := None |} in
+  let raws := [[239; 187]; [191; 104; 44; 195]; [169; 13]; [10; 226; 130]; [172; 44; 34; 240; 159]; []; [152; 128; 13]; [13; 10];
+               [98; 34; 13]; [97]]%N in
+  codec_of_enc (c_enc c) = Some CUtf8 /\
+  decode_bytes CUtf8 (concat raws) =
+    Some [BOMC; 104; COMMA; 233; CR; LF; 8364; COMMA; QT; 128512; CR; CR; LF; 98; QT; CR; 97]%N /\
+  text_layer CUtf8 raws =
+    Some [[]; [BOMC; 104; COMMA]; [233]; [LF]; [8364; COMMA; QT]; []; [128512]; [LF; LF]; [98; QT]; [LF; 97]; []]%N /\
+  run_py_bytes (lite_split (Some [COMMA])) c 2 CUtf8 raws =
+    BRes (ROk [[[8364]; [QT; 128512; LF; LF; 98; QT]]; [[97]]]%N (Some [[104]; [233]]%N)
+              {| w_bom := true; w_defective := None; w_fields := Some (1, 2, 3, 1)%nat |} 5 3).
+Proof. cbv zeta. repeat split; vm_compute; reflexivity. Qed.
+Print Assumptions C12_nonvacuous_bytes.
+
+(* non-vacuity of the error branch: a truncated 4-byte character (error at the flush), an invalid continuation byte (error at
+   the read that carries it), a lone continuation byte, an overlong form, a surrogate; latin-1 reads any bytes as text *)
+Example C12_nonvacuous_invalid :
+  let c := {| c_rfc := false; c_comment := None; c_header := false; c_enc := EncUtf8; c_modifier := None |} in
+  decode_bytes CUtf8 [97; 10; 240; 159; 152]%N = None /\
+  text_layer_trace CUtf8 [[97; 10; 240; 159]; [152]]%N = ([([97; LF], false, 2%nat); ([], false, 1%nat)], false)%N /\
+  text_layer_trace CUtf8 [[97; 10; 240; 159]; [40]]%N = ([([97; LF], false, 2%nat)], false)%N /\
+  map (fun b => decode_bytes CUtf8 b) [[128]; [192; 175]; [237; 160; 128]]%N = [None; None; None] /\
+  run_py_bytes (lite_split (Some [COMMA])) c 1 CUtf8 [[97; 10; 240; 159]; [152]]%N = BIOError /\
+  text_layer CLatin1 [[239; 187]; [191; 13]; []; [13]; [10; 255]]%N = Some [[239; 187]; [191]; []; [LF]; [LF; 255]; []]%N /\
+  (* CPython's deferred error: a read ending in ED A0 (half of an encoded surrogate) returns, the next non-empty read raises *)
+  text_layer_trace CUtf8 [[97; 237; 160]; []; [98]]%N = ([([97], false, 1%nat); ([], false, 1%nat)], false)%N /\
+  text_layer_trace CUtf8 [[97; 237; 160]]%N = ([([97], false, 1%nat)], false)%N /\
+  text_layer_trace CUtf8 [[97; 237; 160; 128]]%N = ([], false).
+Proof. cbv zeta. repeat split; vm_compute; reflexivity. Qed.
+Print Assumptions C12_nonvacuous_invalid.
